@@ -69,6 +69,9 @@ def run(pid, tier, theorems, imports, targets, own_tags):
     # small scenarios with a pre-filled memtable so that a switch and a flush fall inside the window
     for i in range(n // 3):
         jobs.append((cbin, [rng.below(1 << 30), rng.below(1 << 30), rng.below(2), rng.range(2, 3), rng.range(1, 2), rng.range(2, 5), 40000, rng.choice([13, 29, 31])]))
+    # group commit at its size limit: several writers queued at once, small batches mixed with ones above the 128 KiB allowance
+    for i in range(40 if tier == 'quick' else 1500):
+        jobs.append((cbin, [rng.below(1 << 30), rng.below(1 << 30), rng.below(2), rng.range(4, 6), rng.range(0, 1), rng.range(6, 14), 300, rng.choice([32, 33, 36, 44])]))
     # many short runs of batch writers against snapshot readers: the window between sequence publication and memtable insert
     for i in range(240 if tier == 'quick' else 6000):
         jobs.append((cbin, [rng.below(1 << 30), rng.below(1 << 30), rng.below(2), 2, 3, 8, 200, 13]))
